@@ -114,6 +114,16 @@ def siblings(n, how, tail):
     return {"files": files, "top": "top.sv"}
 
 
+def wide_tree(k):
+    """breadth at two levels: top includes m.svh k times, m.svh includes h.svh k times - k + k*k files are opened, none deeper
+    than level 2 (round-6 seeded change: a per-thread budget of 4096 opened files reported ExceedRecursiveLimit)"""
+    top, mid = [], []
+    for i in range(k):
+        top += [pp.inc("m.svh", form=i % 2), pp.nl()]
+        mid += [pp.inc("h.svh", form=0), pp.nl()]
+    return {"files": {"top.sv": top + [pp.tok("end"), pp.nl()], "m.svh": mid, "h.svh": [pp.tok("h"), pp.nl()]}, "top": "top.sv"}
+
+
 def group_cycle(c):
     """macro cycle that closes INSIDE the parenthesised group written behind a body-less, formal-less macro:
     `define E / `define G1 `E (`G2) / ... / `define Gc `E (`G1) / `G1   (the group is ordinary text that is rescanned)"""
@@ -219,6 +229,26 @@ def run(tier, seed):
     v.cov["distinct_nontrivial"] = sum(1 for rr in records if rr["obs"]["outcome"] == "err" and "ExceedRecursiveLimit" in json.dumps(rr["obs"]["err"])) + len(fam)
     v.cov["samples"] = [{"kind": by_id[str(c["id"])]["kind"], "n": by_id[str(c["id"])].get("n"), "outcome": rr["obs"]["outcome"], "err": rr["obs"]["err"],
                          "tokens": len(rr["obs"]["toks"])} for c, rr in list(zip(cases, records))[-12:]]
+    # breadth at two levels (k + k*k opened files, nesting level 2): executed at multiplicity k, judged by the specification
+    # on the same shape at multiplicity 2 (record kind "shape"), through the file and the string entry point
+    small = wide_tree(2)
+    small["id"] = "w2"
+    senv = ppcheck.make_env(small)[0]
+    wc = []
+    for k in ((66, 70) if quick else (64, 66, 70, 80, 100, 128)):
+        for fn in ("preprocess", "preprocess_str"):
+            c = wide_tree(k)
+            c["id"] = "w%d%s" % (k, fn[10:])
+            if fn == "preprocess_str":
+                c["fn"] = fn
+            wc.append((k, c))
+    wrecs, whc, wres = ppcheck.build_run_records([c for _, c in wc], "c09w", check_origins=False, limit_ms=120000)
+    for (k, c), rr in zip(wc, wrecs):
+        o = rr["obs"]
+        records.append({"id": str(c["id"]), "kind": "shape", "env": senv, "k": k, "leaf": 1, "tail": 1, "ntoks": len(o["toks"]),
+                        "obs": {"outcome": o["outcome"], "err": o["err"]}})
+        by_id[str(c["id"])] = {"kind": "wide_tree" + ("/str" if c.get("fn") else ""), "n": k, "files": "(top.sv: %d x `include m.svh; m.svh: %d x `include h.svh)" % (k, k)}
+    v.cov["wide_tree_cases"] = len(wc)
     ppcheck.validate_with_deviations(v, "Preproc_Trace", records, by_id, "c09",
                                      lambda rid: "%s n=%s %s" % (by_id[rid]["kind"], by_id[rid].get("n"), json.dumps(by_id[rid].get("files"))[:300]))
     v.assumptions = ["renderer/tokeniser of lib/pp.py", "worker stack budget 512 MB: a deeper native recursion is reported as crash"]
